@@ -216,6 +216,31 @@ def build_history(rnd, ctx, n, rec):
                     e = ctx.constant(v, rnd.choice(types_[:5]))
                 nodes.append(e)
                 consts.append(e)
+            elif c < 0.47:
+                # near-duplicates: rebuild an existing compound node with exactly one operand replaced (first, middle or last position), then put
+                # the same parent - and grand-parent - over the original and the variant: a key that looks only at some of the operands of an
+                # operand (or only one level down) aliases the parents while the nodes themselves stay distinct
+                comp = [n_ for n_ in nodes if n_.kind not in ("symbol", "constant") and len(n_.operands) >= 1 and all(isinstance(o, Expr) for o in n_.operands)]
+                if comp:
+                    n0 = rnd.choice(comp[-40:] if rnd.random() < 0.5 else comp)
+                    j = rnd.randrange(len(n0.operands))
+                    ops = list(n0.operands)
+                    ops[j] = rnd.choice(nodes)
+                    n1 = Expr(ctx, n0.kind, tuple(ops))
+                    nodes.append(n1)
+                    sib = rnd.choice(nodes)
+                    pk = rnd.choice(UNARY + BINARY + ["select", "list"])
+                    for n_ in (n0, n1):
+                        if pk in UNARY:
+                            par = Expr(ctx, pk, (n_,))
+                        elif pk in BINARY:
+                            par = Expr(ctx, pk, (n_, sib) if j % 2 == 0 else (sib, n_))
+                        elif pk == "select":
+                            par = Expr(ctx, "select", (sib, n_, sib) if j % 2 == 0 else (n_, sib, sib))
+                        else:
+                            par = ctx.list([sib, n_, sib])
+                        nodes.append(par)
+                        nodes.append(Expr(ctx, rnd.choice(UNARY), (par,)))
             elif c < 0.6:
                 a = rnd.choice(nodes)
                 nodes.append(Expr(ctx, rnd.choice(UNARY), (a,)))
